@@ -645,7 +645,10 @@ func govcDump(v reflect.Value, depth int) interface{} {
 }
 func govcDumpAll(vs ...interface{}) string {
 	out := make([]interface{}, len(vs))
-	for i, x := range vs { out[i] = govcDump(reflect.ValueOf(x), 0) }
+	for i, x := range vs {
+		if x == nil { out[i] = nil; continue }
+		out[i] = map[string]interface{}{"top": true, "dyn": reflect.TypeOf(x).String(), "val": govcDump(reflect.ValueOf(x), 0)}
+	}
 	b, _ := json.Marshal(out)
 	return string(b)
 }
@@ -931,18 +934,32 @@ func (rp *replayer) evalPost(fn *ssa.Function, cvs []*CV, out string) (failed []
 	// post-state: overwrite pointees of pointer parameters with the observed values
 	for i, p := range fn.Params {
 		if pv, ok := args[i].(*PtrVal); ok && pv.Obj != 0 && i < len(post) && post[i] != nil {
-			cv := rp.fromJSON(post[i], p.Type())
+			pj := post[i]
+			if m, ok := pj.(map[string]interface{}); ok && m["top"] == true {
+				pj = m["val"]
+			}
+			cv := rp.fromJSON(pj, p.Type())
 			if cv.K == "ptr" {
 				st.Heap[pv.Obj] = rp.toVal(e, st, cv.Elem)
 			}
 		}
+	}
+	unwrap := func(j interface{}, t types.Type) interface{} {
+		m, ok := j.(map[string]interface{})
+		if !ok || m["top"] != true {
+			return j
+		}
+		if _, isI := t.Underlying().(*types.Interface); isI {
+			return map[string]interface{}{"dyn": m["dyn"], "val": m["val"]}
+		}
+		return m["val"]
 	}
 	rs := fn.Signature.Results()
 	rvals := make([]Val, rs.Len())
 	for i := 0; i < rs.Len(); i++ {
 		var j interface{}
 		if i < len(results) {
-			j = results[i]
+			j = unwrap(results[i], rs.At(i).Type())
 		}
 		rvals[i] = rp.toVal(e, st, rp.fromJSON(j, rs.At(i).Type()))
 	}
